@@ -169,6 +169,23 @@ impl<'r> SchemaGen<'r> {
 
 	pub fn gen_root(mut self) -> RawSchema {
 		self.gen_type(0, &[], false);
+		// sometimes the *last* node of the vector is a union reached from a record field (freeze
+		// walks the vector twice; the ends of the vector are where an off-by-one hides)
+		if self.rng.gen_bool(0.15) {
+			if let Some(r) = (0..self.nodes.len()).find(|&k| matches!(self.nodes[k].reg, Reg::Record(..))) {
+				let other = match self.rng.gen_range(0..3) {
+					0 => self.push(Reg::Int, None),
+					1 => self.push(Reg::String, None),
+					_ => self.push(Reg::Boolean, None),
+				};
+				let null = self.push(Reg::Null, None);
+				let branches = if self.rng.gen_bool(0.5) { vec![null, other] } else { vec![other, null] };
+				let u = self.push(Reg::Union(branches), None);
+				if let Reg::Record(_, fs) = &mut self.nodes[r].reg {
+					fs.push(("tail".into(), u));
+				}
+			}
+		}
 		self.nodes
 	}
 
@@ -185,7 +202,8 @@ impl<'r> SchemaGen<'r> {
 			7 => self.push(Reg::String, None),
 			8 => {
 				let name = self.fresh_name();
-				let n = self.rng.gen_range(1..4);
+				// (an enum without symbols is legal in a schema, though no value inhabits it)
+				let n = if self.wild && self.rng.gen_bool(0.15) { 0 } else { self.rng.gen_range(1..4) };
 				let mut syms: Vec<String> = (0..n).map(|i| format!("S{i}")).collect();
 				if self.wild && self.rng.gen_bool(0.1) {
 					syms.push("S0".into());
@@ -1270,7 +1288,9 @@ pub fn shape_hint(rng: &mut StdRng, schema: &RawSchema, idx: usize, depth: usize
 			}
 			match rng.gen_range(0..4) {
 				0 => Hint::Any,
-				1 if null_branch.is_some() => Hint::Option(Box::new(Hint::Any)),
+				// (an `Option` target is also legal on a union without a null branch, of any size:
+				// the value is then always `Some`)
+				1 if null_branch.is_some() || rng.gen_bool(0.6) => Hint::Option(Box::new(Hint::Any)),
 				_ => {
 					let mut variants = vec![];
 					for &b in &vs {
